@@ -100,6 +100,43 @@ theorem region_le_cap (f : Fmt) (s0 : Insp) (h0 : Insp.init f = some s0) (chunks
   rw [hf] at c
   exact ⟨b, c⟩
 
+theorem lemma_sum_filterMap_le {α : Type} (g : α → Option Nat) (h : α → Nat)
+    (hb : ∀ a x, g a = some x → x ≤ h a) : ∀ (l : List α), (l.filterMap g).sum ≤ (l.map h).sum := by
+  intro l
+  induction l with
+  | nil => simp
+  | cons a l ih =>
+    cases hg : g a with
+    | none => simp only [List.filterMap_cons, hg, List.map_cons, List.sum_cons]; omega
+    | some x =>
+      have := hb a x hg
+      simp only [List.filterMap_cons, hg, List.map_cons, List.sum_cons]; omega
+
+/-- **the whole detector** — the bytes retained by all inspectors an `InspectWrapper` can hold (one per
+    format), after any chunk list, add up to at most the sum of the per-format bounds … -/
+theorem retained_all_inspectors_le (chunks : List Bytes) :
+    (Fmt.all.filterMap (fun f => (Insp.init f).map (fun s0 => (feedAll s0 chunks).retained))).sum
+      ≤ (Fmt.all.map limit).sum := by
+  apply lemma_sum_filterMap_le
+  intro f x hx
+  cases h0 : Insp.init f with
+  | none => simp [h0] at hx
+  | some s0 =>
+    simp only [h0, Option.map_some, Option.some.injEq] at hx
+    subst hx
+    exact retained_le_bound f s0 h0 chunks
+
+/-- … which is the constant 6 MiB (over the generated constants), and every format is present in that sum -/
+theorem all_limits_sum : (Fmt.all.map limit).sum = 6 * 1024 * 1024 ∧
+    (Fmt.all.filterMap (fun f => (Insp.init f).map (fun _ => 1))).sum = 10 := by decide
+
+/-- the bound does not depend on the stream: it is the same constant for an empty feed and for any other -/
+theorem retained_bound_is_constant (f : Fmt) (s0 : Insp) (h0 : Insp.init f = some s0)
+    (chunks chunks' : List Bytes) :
+    (feedAll s0 chunks).retained ≤ limit f ∧ (feedAll s0 chunks').retained ≤ limit f ∧
+    (feedAll s0 (chunks ++ chunks')).retained ≤ limit f :=
+  ⟨retained_le_bound f s0 h0 chunks, retained_le_bound f s0 h0 chunks', retained_le_bound f s0 h0 _⟩
+
 /-! non-vacuity: a VMDK header announcing 2^64-1 descriptor sectors is clamped -/
 example : cap .vmdk "descriptor" = 1048575 ∧ cap .vhdx "vds" = 65536 ∧ limit .vmdk = 1572864 := by decide
 
